@@ -36,3 +36,9 @@ MANIFEST = dict(
     technique="Coq proof (invariants by induction over run of a labelled transition system) + model-based trace validation",
     category="proof",
 )
+
+# "every handed-out connection is returned" for the streaming callers is tied to the code by the recycling observer of C29
+# (pool-books oracle: size / idle after every DoStream / DoMultiStream incl. faults at every reply index); integrator's addition.
+from props import C29b as _recycle  # noqa: E402
+SPEC["observers"] = list(SPEC["observers"]) + [dict(o, corpus=False, n=dict(o["n"], quick=100)) for o in _recycle.SPEC["observers"]]
+SPEC["rule"] += "; obs_stream (docs/ps.md): DoStream / DoMultiStream through a real client with BlockingPoolSize 1-2, replies cut at every reply index incl. non-final ones, failing writers, contexts ending before / during connection set-up; pool books (size, idle) checked after every call"
